@@ -362,9 +362,11 @@ func intLshift(a, b Int) (Object, error) {
 	shift := uint(b)
 	r := a << shift
 	if r>>shift != a {
-		aBig := big.NewInt(int64(a))
-		aBig.Lsh(aBig, shift)
-		return (*BigInt)(aBig), nil
+		res, err := bigLsh(big.NewInt(int64(a)), shift)
+		if err != nil {
+			return nil, err
+		}
+		return res, nil
 	}
 	return Int(r), nil
 }
